@@ -203,6 +203,40 @@ let replay_e6 id line =
       | _ -> false) (fst c).glog in
   Printf.printf "OUT E6 %s diverted=%d\n" id (if div then 1 else 0)
 
+(* IN BULK <id> pools=W:H:prio:steal:elastic,... pool=<p> prio=<n|h|l> hint=<x|int> n=<shape> lw=<local worker of
+   set_value> obs=<k:pool:worker;...> : every observed (worker_thread k of the calling task_function, pool,
+   local worker) of a real bulk operation is submitted to the extracted acceptor [bulk_allowed]
+   (Model/BulkPlacement.v; sound by C10_bulk_allowed_sound).  Admitted observations are re-printed as they
+   are, the others with a '!' and the worker the model expects. *)
+let replay_bulk id line =
+  let pools = Array.of_list (List.map (fun s ->
+      match String.split_on_char ':' s with
+      | [w; h; p; st; e] -> { w = int_of_string w; h = int_of_string h; prio = p = "1"; steal = st = "1";
+                              elastic = e = "1"; off = 0 }
+      | _ -> failwith "pool") (split_on ',' (field line "pools"))) in
+  let cfg = mk_cfg pools in
+  let prio = match field line "prio" with "h" -> PHigh | "l" -> PLow | _ -> PNormal in
+  let hint = match field line "hint" with "x" -> HNone | s -> HThread (z_of_int (int_of_string s)) in
+  let p = int_of_string (field line "pool") in
+  let bp = { bp_pool = nat_of_int p; bp_prio = prio; bp_hint = hint; bp_n = n_of_int (int_of_string (field line "n")) } in
+  let lw = int_of_string (field line "lw") in
+  let obs = List.filter (fun s -> s <> "") (split_on ';' (field line "obs")) in
+  let out = List.map (fun s ->
+      match String.split_on_char ':' s with
+      | [k; pw; w] ->
+        let k = int_of_string k and pw = int_of_string pw and w = int_of_string w in
+        if k >= 0 && pw >= 0 && w >= 0 && lw >= 0 &&
+           bulk_allowed cfg bp prio (nat_of_int lw) (nat_of_int k) (nat_of_int pw) (nat_of_int w) then s
+        else begin
+          let e = if k >= 0 && lw >= 0 then
+              (match bulk_worker (cfg bp.bp_pool) bp prio (nat_of_int lw) (nat_of_int k) with
+               | Some e -> string_of_int (int_of_nat e) | None -> "any") else "?" in
+          let ne = if k >= 0 then part_nonempty (nat_of_int pools.(p).w) bp.bp_n (nat_of_int k) else false in
+          Printf.sprintf "%s!(model: pool %d worker %s, queue %s)" s p e (if ne then "nonempty" else "empty")
+        end
+      | _ -> s ^ "!") obs in
+  Printf.printf "OUT BULK %s %s\n" id (String.concat ";" out)
+
 let () =
   try
     while true do
@@ -210,6 +244,7 @@ let () =
       match String.split_on_char ' ' line with
       | "IN" :: "PL" :: id :: _ -> (try replay_pl id line with e -> Printf.printf "OUT PL %s driver-error:%s\n" id (Printexc.to_string e))
       | "IN" :: "E6" :: id :: _ -> replay_e6 id line
+      | "IN" :: "BULK" :: id :: _ -> (try replay_bulk id line with e -> Printf.printf "OUT BULK %s driver-error:%s\n" id (Printexc.to_string e))
       | _ -> ()
     done
   with End_of_file -> ()
